@@ -81,6 +81,7 @@ def check_program(name, slots, program, w, wd, sieve, stats, files):
         prim, instances = R4.inline(program)
     except R4.InlineError:
         return
+    expansions = list(R4.EXPANSIONS)
     ref_table, err, _ = assemble_with_labels(R4.render_primitive(prim), w, wd, 'ref')
     if ref_table is None:
         return
@@ -107,6 +108,21 @@ def check_program(name, slots, program, w, wd, sieve, stats, files):
                 f'{len(paths)} distinct names ending in {base!r} at address {addr}', names)
     # every table name must denote an address inside the program and names are unique by construction (dict);
     # the same NAME at two addresses would have been a collision: check the ref/orig instance counts agree
+    # (1b) a table entry that names an expansion path (the implementation's `...---:start:` entries) sits at the first statement
+    #      of an expansion of the macro it names last: where some macro's expansion starts, the entry names one of the
+    #      expansions starting there, not an expansion that emitted nothing before it. only checked when the entry's name ends with a macro name of the program.
+    macro_names = {e[0] for e in expansions}
+    starts_at = {}
+    for mname, before, emitted in expansions:
+        if emitted:
+            starts_at.setdefault(before * 2 * w, set()).add(mname.split('.')[-1])
+    for tname, addr in table.items():
+        if not tname.endswith(':start:'):
+            continue
+        toks = [t for t in re.findall(r'[A-Za-z_][A-Za-z_0-9]*', tname[:-len(':start:')]) if t in {m.split('.')[-1] for m in macro_names}]
+        if toks and starts_at.get(addr) and toks[-1] not in starts_at[addr]:
+            bad('an expansion-path entry sits at a statement of another macro', {'address': addr, 'expansions starting there': sorted(starts_at.get(addr, []))}, tname)
+            break
     # (2) round trip
     p2 = wd / 'roundtrip.fjd'
     save_debugging_labels(p2, table)
